@@ -677,7 +677,7 @@ def run(model, rep, tier):
     check_array_identity(model, rep)
     rep.rule('R17.9', 'every name loaded in types.py resolves (symtable)')
     from rules import names as _names
-    _names.check(model, rep, 'R17.9', ('types',), 60)
+    _names.check(model, rep, 'R17.9', ('types',), 45)
     rep.require('R17.2', 15)
     rep.require('R17.5', 14)
     rep.require('R17.3', 20)
